@@ -171,7 +171,24 @@ class CFGBuilder(AstVisitor[BB | None]):
         return self._build_node_value(node, bb)
 
     def visit_AugAssign(self, node: ast.AugAssign, bb: BB, jumps: Jumps) -> BB | None:
+        # `xs[i] += v` is checked as `xs[i] = xs[i] + v`, so the index expression would
+        # be evaluated twice. Name it first so that it is only evaluated once.
+        bb = self._name_subscript_indices(node.target, bb)
         return self._build_node_value(node, bb)
+
+    def _name_subscript_indices(self, target: ast.expr, bb: BB) -> BB:
+        """Binds the index expressions of an augmented assignment target to temporary
+        variables, innermost subscript first (the order in which they are evaluated)."""
+        if isinstance(target, ast.Attribute):
+            return self._name_subscript_indices(target.value, bb)
+        if isinstance(target, ast.Subscript):
+            bb = self._name_subscript_indices(target.value, bb)
+            if not isinstance(target.slice, ast.Constant | ast.Name):
+                index, bb = ExprBuilder.build(target.slice, self.cfg, bb)
+                tmp = next(tmp_vars)
+                ExprBuilder._tmp_assign(tmp, index, bb)
+                target.slice = make_var(tmp, index)
+        return bb
 
     def visit_AnnAssign(self, node: ast.AnnAssign, bb: BB, jumps: Jumps) -> BB | None:
         return self._build_node_value(node, bb)
